@@ -471,7 +471,7 @@ func (c *UDPConn) FindAddrByChannelNumber(chNum uint16) (net.Addr, bool) {
 		return nil, false
 	}
 
-	return b.addr, true
+	return cloneAddr(b.addr), true
 }
 
 func (c *UDPConn) maybeBind(bound *binding) {
